@@ -382,7 +382,7 @@ fn tag_case(i: usize) -> CaseResult {
 // ------------------------------------------------------------------------------------------------
 // negatives: text that is not a well-formed document, or a map with a non-string key
 
-const NEGATIVES: [(&str, &str); 15] = [
+const NEGATIVES: [(&str, &str); 18] = [
     ("{1: a}\n", "integer key (flow)"),
     ("1: a\n", "integer key (block)"),
     ("{[a]: b}\n", "sequence key"),
@@ -398,6 +398,10 @@ const NEGATIVES: [(&str, &str); 15] = [
     ("a: [1, 2\n", "unterminated flow sequence"),
     ("\"unterminated\n", "unterminated string"),
     ("a: 'x\n", "unterminated single-quoted string"),
+    // YAML: "each of the keys is unique"
+    ("a: 1\nb: 2\na: 3\n", "duplicate key (block)"),
+    ("{a: 1, a: 2}\n", "duplicate key (flow)"),
+    ("{\"a\": 1, \"b\": {\"c\": 1, \"c\": 2}}", "duplicate key (nested, JSON)"),
 ];
 
 fn negative_check(text: &str, why: &str) -> CaseResult {
